@@ -1190,6 +1190,9 @@ type c14Explorer struct {
 	failed   map[string]bool
 	itemBase int
 	stop     bool
+	// second phase (longer histories over the core alphabet): transitions of positions < countFrom, and
+	// retention runs at position countFrom, were already executed and counted by the first phase
+	countFrom int
 }
 
 // replay builds a fresh world and re-executes path (already validated steps).
@@ -1242,6 +1245,9 @@ func (x *c14Explorer) visit(w *c14World, path []string) {
 			continue // second operation: subtrees are dealt to the workers
 		}
 		counted := x.owns(path, oi)
+		if len(path) < x.countFrom || (x.countFrom > 0 && len(path) == x.countFrom && (op == "H" || op == "Hw")) {
+			counted = false
+		}
 		if w == nil {
 			w = x.replay(path)
 		}
@@ -1473,6 +1479,24 @@ func c14Main(t *testing.T, rep *kit.Report) {
 			x.visit(nil, nil)
 			if x.stop {
 				return
+			}
+		}
+	}
+	// thorough, second phase: one operation more over the core alphabet (clock, retention run, the two
+	// accepted finite durations and unlimited, writes at now and at the edge of the window)
+	if kit.Thorough() && kit.Getenv("VERIF_DEPTH", "") == "" {
+		core := []string{"T0", "T+1", "TI", "H", "A0", "A1", "A2", "Wn", "We"}
+		rep.Note("second phase: every sequence of <= %d operations of %v followed by a retention run (H or Hw)", maxLen, core)
+		rep.Max("max_depth_core", int64(maxLen+1))
+		for _, d0 := range []int{2, 3, 0} {
+			for _, init := range []string{"open", "cat"} {
+				x := &c14Explorer{rep: rep, scratch: scratch, maxLen: maxLen + 1, inner: core, last: []string{"H", "Hw"},
+					d0: d0, init: init, failed: map[string]bool{}, itemBase: item, countFrom: maxLen - 1}
+				item += len(c14Ops) * len(c14Ops)
+				x.visit(nil, nil)
+				if x.stop {
+					return
+				}
 			}
 		}
 	}
